@@ -363,7 +363,8 @@ fn leg_term_outputs(ctx: &Ctx, out: &mut Out, envs_: &[(String, envs::Built)]) {
                 let free = guard(|| b.redeem(&prog));
                 b.pin = true;
                 match free {
-                    Ok(Ok(f)) if f.ihr() == r.ihr() && f.arrow().target == r.arrow().target => {}
+                    // (the identity root does not see types inside an expression: compare the annotated root and the bytes too)
+                    Ok(Ok(f)) if f.ihr() == r.ihr() && f.amr() == r.amr() && f.arrow().target == r.arrow().target && f.to_vec_with_witness() == r.to_vec_with_witness() => {}
                     _ => return Ok("skipped:annotation-is-not-the-principal-typing"),
                 }
                 let mut cp = c_check_expr(&pb, &wb).map_err(|(c, st)| ("c-rejects-expression".to_string(), format!("{} at {st}", err_name(c))))?;
